@@ -21,8 +21,9 @@ download).  The two copies of the "auto-read → bind → download" logic (`roun
 digest middleware) are modelled SEPARATELY, as the code has them; that they agree is a theorem
 (`Req.Props.C02Call.call_final_exchange`), not a definition.
 
-The model follows the repaired behaviour of fixes/C02-2 (the download of a 401 that the digest
-middleware is about to answer is left to that middleware, which saves the final answer).
+The model follows /repo 835f2f1 (fixes/C18-3; the same defect as finding C02-2): `handleDownload`
+does not save a 401 carrying a Digest challenge when digest auth is configured; the digest
+middleware saves the answer to the authorized request (`saveResponse`) unless binding it failed.
 
 Outside this model: a 401 without a usable challenge (C20), request bodies that cannot be
 replayed (C20), unmarshal failures (C18), the retry interval / context cancellation (C08/C10).
@@ -62,11 +63,11 @@ structure CView where
   error : Option Bytes     -- `resp.error`
 deriving Repr, BEq, DecidableEq
 
-/-- `req.Response` during a call: the visible part, the bookkeeping flag of fixes/C02-2 and a
+/-- `req.Response` during a call: the visible part and two ghosts: whether it is a re-send answer, and a
 ghost. -/
 structure CR where
   v : CView
-  resent : Bool            -- `resp.digestResent`: this is the answer to a digest re-send
+  resent : Bool            -- ghost: this is the answer to a digest re-send
   src : Exch               -- ghost: the exchange that produced `resp.Response`
 deriving Repr, BEq, DecidableEq
 
@@ -108,10 +109,11 @@ def bindBody (base : Cfg) (v : CView) : CView :=
 def bindFails (base : Cfg) (v : CView) : Bool :=
   v.hasResp && wantsBind base v.r.status && decide (v.r.toBytes.1.2 ≠ .ok)
 
-/-- fixes/C02-2 `digestChallengePending`: a 401 that a configured digest middleware is going
-to answer (the middleware's own guard) is not the response to save. -/
+/-- `handleDownload`'s skip test (/repo 835f2f1): digest auth is configured (client or request
+flag) and the response is a 401 with a Digest challenge (`isDigestChallenge`; in this model every
+401 carries one). Neither `resp.Err` nor the origin of the response is looked at. -/
 def awaitsDigest (cfg : CCfg) (c : CR) : Bool :=
-  decide (cfg.digest ≠ .off) && c.v.r.err.isNone && c.v.hasResp && c.v.r.status == 401 && !c.resent
+  decide (cfg.digest ≠ .off) && c.v.hasResp && c.v.r.status == 401
 
 /-- What a writer holds so far (`none`: never written to). -/
 def accBytes : Option Bytes → Bytes
@@ -155,7 +157,7 @@ def digestStep (cfg : CCfg) (c : CR) (acc : Option Bytes) (script : List Exch) :
       match script with
       | [] => (.terr, [])
       | e :: rest => (e, rest)
-    -- resp.body, resp.result, resp.error = nil, nil, nil; resp.digestResent = true;
+    -- resp.body, resp.result, resp.error = nil, nil, nil;
     -- resp.Response, err = RoundTrip(&req)
     let v0 := CView.ofExch e
     match e with
@@ -164,10 +166,12 @@ def digestStep (cfg : CCfg) (c : CR) (acc : Option Bytes) (script : List Exch) :
       -- the error of the auto-read `resp.ToBytes()` is dropped here (it stays in `resp.Err`)
       let v1 := if digestAutoRead cfg.base v0 then autoReadStep v0 else v0
       let v2 := bindBody cfg.base v1
-      let (v3, acc') := download cfg.base cfg.file false v2 acc      -- `digestResent`: not pending
-      -- like `Client.roundTrip`, both built-in stages run; the last error is returned
-      some (({ v := v3, resent := true, src := e }, acc', script'),
-            bindFails cfg.base v1 || (v2.r.err.isNone && v3.r.err.isSome))
+      -- `if err = parseResponseBody(...); err != nil { return err }`: nothing is saved then
+      if bindFails cfg.base v1 then some (({ v := v2, resent := true, src := e }, acc, script'), true)
+      else
+        -- `return saveResponse(client, resp)`: no skip test here
+        let (v3, acc') := download cfg.base cfg.file false v2 acc
+        some (({ v := v3, resent := true, src := e }, acc', script'), v2.r.err.isNone && v3.r.err.isSome)
 
 /-- Outcome of one pass of the loop of `Request.do`. -/
 structure Pass where
